@@ -8,6 +8,8 @@ You can obtain one at http://mozilla.org/MPL/2.0/.
 */
 #pragma once
 
+#include <cfenv>
+
 /*  The Boost interval library hits MSVC warning 4244 (casting to a narrower 
  *  type) when it creates an interval of a narrower type from objects of a 
  *  wider type.  We don't want to just cast beforehand, as Boost performs the
@@ -232,7 +234,11 @@ public:
     static Interval nth_root(const Interval& a, const Interval& b)
     {
         auto bPt = int(b.lower());
+        // boost::numeric::nth_root leaves the rounding mode changed, which
+        // leaks into the caller (and into later evaluations)
+        const int rounding_mode = std::fegetround();
         auto i = boost::numeric::nth_root(a.i, bPt);
+        std::fesetround(rounding_mode);
         // Boost returns a NaN bound for the root of an infinite bound, which
         // min / max / comparisons downstream would silently drop
         if (std::isnan(i.upper()) && a.upper() == INFINITY) {
